@@ -1,12 +1,803 @@
 /-
-  ZapModel.Layout: independent decoder of real .zap files, written from the documented
-  v16 layout (zap.md / README.md), used by the `dumpfile` command (C09).
-  STUB: replaced by the C09 implementation.
+  ZapModel.Layout: an INDEPENDENT decoder of real .zap (v16) segment files, written from
+  the documented layout (/repo/zap.md, /repo/README.md) and used by the `dumpfile`
+  command (property C09: every file produced by Persist or Merge can be decoded by a
+  reader written only from the documented layout and decodes to exactly the content
+  that went in).
+
+  What is decoded here, natively, from the bytes of the file:
+    footer, CRC-32, sections index, field records, section records, postings records,
+    chunk tables, freq/norm entries, location entries, doc-value framing + snappy,
+    stored-field index / meta / snappy data, 1-hit FST values, synonym codes, the
+    synonym term table, the vector id -> doc map.
+  What is taken from an oracle (the harness decodes it with the real library and offers
+  it as a `Blob`; this decoder computes the blob's offset and length itself and looks it
+  up - a miss is a failure, so the harness cannot steer the result):
+    vellum FSTs (`fst`: key/value pairs), roaring bitmaps (`r32`), roaring64 bitmaps
+    (`r64`), the vector engine's index bytes (`faiss`, opaque: presence only).
+
+  ------------------------------------------------------------------------------------
+  LAYOUT FACTS NOT STATED IN zap.md (each resolved by reading the pinned WRITER code;
+  the reader code was not consulted).  "README" = /repo/README.md.
+  ------------------------------------------------------------------------------------
+   F1  Footer is 52 bytes, big-endian: D# u64 | SF u64 | F u64 | S u64 | FDV u64 | CF u32 |
+       V u32 | CC u32.  zap.md draws S; README's footer list omits it.  In v16 the
+       writer always stores F = S and FDV = 0 (write.go persistFooter callers:
+       merge.go:84, build.go InitSegmentBase).  CC = CRC-32/IEEE of all preceding bytes.
+   F2  CF ("chunk factor") is a chunk MODE, not a size: the chunk size of a postings
+       list is getChunkSize(CF, cardinality of the list, D#) (chunk.go): CF <= 1024
+       literal; 1025: D# if cardinality <= 1024 else 1024; 1026: D# / (cardinality/1024+1).
+   F3  Sections index at S: uvarint NF FIRST, then NF u64 addresses (zap.md draws NF
+       last); it ends exactly at the footer (write.go persistFieldsSection).
+   F4  Field record (at an address of the sections index): uvarint nameLen, name,
+       uvarint NS, then NS x (u16 type, u64 address).  zap.md draws the parts in the
+       opposite order and the address before the type.  Address 0 = section absent.
+       Types: 0 inverted text, 1 vector, 2 synonym (section.go iota).  The pairs come in
+       Go map order.  NS is 2 without the `vectors` build tag, 3 with it.
+   F5  Inverted section record: uvarint dvStart, uvarint dvEnd, uvarint dictLoc - the
+       third uvarint is the ADDRESS of the dictionary (zap.md draws "DV Start | DV End |
+       Length | VELLUM" as if contiguous).  At dictLoc: uvarint length + vellum bytes.
+       Not uninverted: dvStart = dvEnd = 2^64-1 (section_inverted_text_index.go writeDicts,
+       mergeAndPersistInvertedSection).
+   F6  FST values: top two bits 00 = offset of a postings record; 10 = "1-hit": the term
+       occurs in one document with frequency 1 and no locations; doc = low 31 bits, norm
+       bits = next 31 bits.  Not documented at all (merge.go writePostings,
+       use1HitEncoding; only Merge produces it).
+   F7  Postings record: uvarint freqOffset, uvarint locOffset, uvarint roaringLen,
+       roaring bytes (README has this; zap.md's picture agrees).  An offset of 0 means
+       "stream not written" (intcoder.go writeAt: empty stream); the freq/norm stream is
+       never empty for a non-empty list.  The writer emits freq/norm stream, location
+       stream and record back to back (merge.go writePostings) - checked here.
+   F8  Chunked stream: uvarint numChunks, numChunks uvarint END offsets (README says
+       "length of each chunk"; intcoder.go modifyLengthsToEndOffsets), then the data.
+       Chunk c holds the entries of the documents with doc / chunkSize = c, chunks
+       without documents are empty.
+   F9  Freq/norm entry: uvarint (freq << 1 | hasLocs); then uvarint norm (float32 bits)
+       ONLY IF freq != 0 (README: "encode term frequency, encode norm factor").
+   F10 Location entries of one document (only documents with hasLocs): uvarint
+       numLocsBytes (zap.md "Size"), then locations until that many bytes are consumed:
+       fieldID, pos, start, end, numArrayPos, arrayPos... (zap.md omits fieldID, README
+       has it).
+   F11 Stored document record: uvarint metaLen, uvarint dataLen, meta, data.  Meta is a
+       uvarint stream that STARTS WITH idLen (undocumented), then per value: fieldID,
+       type, offset, length, numArrayPos, arrayPos...  Data = the raw `_id` bytes
+       (idLen, NOT compressed, no meta entry) ++ snappy(all other values); dataLen
+       covers both; offsets index the uncompressed non-id data (new.go writeStoredFields,
+       build.go persistStoredFieldValues, merge.go mergeStoredAndRemap).
+   F12 Doc values [dvStart, dvEnd): chunk data ++ uvarint chunk END offsets ++ u64
+       byte length of those offsets ++ u64 number of chunks (contentcoder.go Write).
+       Chunk: uvarint numDocs, numDocs x (uvarint doc, uvarint END offset), snappy data.
+       A document's value is its terms, each FOLLOWED by 0xff.  The doc-value chunk
+       size (zap.LegacyChunkMode, 1024) is not recorded in the file, so chunk membership
+       cannot be checked for doc values (ascending docs < D# is).
+   F13 Synonym section record: uvarint 2^64-1, uvarint 2^64-1, uvarint thesLoc.  At
+       thesLoc: uvarint length + vellum; FST value = offset of (uvarint length +
+       roaring64 bytes); code = synonymID << 32 | doc.  The term table (uvarint count,
+       then (uvarint id, uvarint len, bytes)* in Go map order) follows the vellum bytes
+       and is OMITTED ENTIRELY (zero bytes, no count) when it is empty
+       (section_synonym_index.go writeSynTermMap); the section record follows the table
+       immediately, which is how "absent" is told from "present" here.
+   F14 Vector section record: uvarint 2^64-1, uvarint 2^64-1, uvarint optimisation type
+       (0 recall, 1 latency, 2 memory-efficient), uvarint numVecs, numVecs x (zig-zag
+       varint vecID, uvarint docID), uvarint indexSize, index bytes.  zap.md has no
+       picture of it (section_faiss_vector_index.go writeVectorIndexes,
+       flushSectionMetadata, flushVectorIndex).
+   F15 README's "fields section", "fields idx", "fields DocValue" and "dictionary address
+       in the fields section" describe the pre-sections (v15) layout; nothing of it is
+       written in v16.
+   F16 Quirk: a segment with D# = 0 and nothing written before the fields section has
+       its first field record at file offset 0 (which the shipped reader takes for
+       "absent").  This decoder decodes what the bytes say (all NF records).
 -/
 import ZapModel.Types
 import ZapModel.Codec
+import ZapModel.Gen.Pure
+import Std.Data.HashMap
+
 namespace Zap.Layout
+open Zap
+
+/-- An external-library structure located in the file by the harness. -/
+structure Blob where
+  off : Nat
+  len : Nat
+  kind : String                       -- fst | r32 | r64 | faiss
+  fst : List (Bytes × Nat) := []      -- kind = fst: (key, value) in FST order
+  nums : List Nat := []               -- kind = r32 / r64: members in iteration order
+  deriving Repr, Inhabited
+
+abbrev R := Except String
+
+def u64max : Nat := 2 ^ 64 - 1
+
+/-! ### small helpers (local: this module must not import Script / Driver) -/
+
+def hexDigit (n : Nat) : Char := if n < 10 then Char.ofNat (48 + n) else Char.ofNat (87 + n)
+
+def hx (b : Bytes) : String :=
+  if b.isEmpty then "." else String.ofList (b.flatMap (fun x => [hexDigit (x / 16), hexDigit (x % 16)]))
+
+def toBA (bs : Bytes) : ByteArray := ByteArray.mk (bs.toArray.map (fun x => UInt8.ofNat x))
+
+def ofBA (b : ByteArray) : Bytes := b.toList.map (·.toNat)
+
+def ascNat : List Nat → Bool
+  | a :: b :: rest => a < b && ascNat (b :: rest)
+  | _ => true
+
+def ascKeys : List Bytes → Bool
+  | a :: b :: rest => Bytes.lt a b && ascKeys (b :: rest)
+  | _ => true
+
+/-! ### byte-level readers -/
+
+/-- uvarint at `pos` that must end before `lim` (Go's `binary.Uvarint`: at most 10 bytes,
+    the 10th at most 1).  Returns (value, next position). -/
+def uvLim (b : ByteArray) (pos lim : Nat) : R (Nat × Nat) :=
+  let rec go (fuel pos sh acc : Nat) : R (Nat × Nat) :=
+    match fuel with
+    | 0 => throw s!"uvarint longer than 10 bytes at offset {pos}"
+    | fuel + 1 =>
+      if pos ≥ lim ∨ pos ≥ b.size then throw s!"uvarint runs past the end of its region at offset {pos}"
+      else
+        let x := (b.get! pos).toNat
+        if x < 128 then
+          if fuel = 0 ∧ x > 1 then throw s!"uvarint overflows 64 bits at offset {pos}"
+          else pure (acc + (x <<< sh), pos + 1)
+        else go fuel (pos + 1) (sh + 7) (acc + ((x - 128) <<< sh))
+  go 10 pos 0 0
+
+def uv (b : ByteArray) (pos : Nat) : R (Nat × Nat) := uvLim b pos b.size
+
+/-- Big-endian unsigned integer of `n` bytes. -/
+def be (b : ByteArray) (pos n : Nat) : R Nat :=
+  if pos + n > b.size then throw s!"{n}-byte integer at offset {pos} runs past the end of the file"
+  else pure ((List.range n).foldl (fun a i => a * 256 + (b.get! (pos + i)).toNat) 0)
+
+def slice (b : ByteArray) (pos len : Nat) : R Bytes :=
+  if pos + len > b.size then throw s!"{len} bytes at offset {pos} run past the end of the file"
+  else pure (ofBA (b.extract pos (pos + len)))
+
+/-- All uvarints of a byte string; a truncated tail is an error. -/
+def uvAll (what : String) (bs : Bytes) : R (List Nat) :=
+  let rec go (fuel : Nat) (bs : Bytes) (acc : Array Nat) : R (List Nat) :=
+    match fuel with
+    | 0 => pure acc.toList
+    | fuel + 1 =>
+      match bs with
+      | [] => pure acc.toList
+      | _ => match Codec.uvarint bs with
+        | none => throw s!"{what}: truncated uvarint"
+        | some (v, rest) => go fuel rest (acc.push v)
+  go (bs.length + 1) bs #[]
+
+/-! ### decoding context -/
+
+structure Ctx where
+  b : ByteArray
+  blobs : Std.HashMap (Nat × Nat × String) Blob
+  numDocs : Nat
+  chunkMode : Nat
+
+def Ctx.blob (c : Ctx) (off len : Nat) (kind : String) : R Blob :=
+  match c.blobs.get? (off, len, kind) with
+  | some bl => pure bl
+  | none => throw s!"the layout puts a {kind} structure at [{off},{off + len}) but the library found none there"
+
+/-! ### chunked streams (F8) -/
+
+structure Chunks where
+  n : Nat
+  offs : Array Nat       -- END offsets
+  data : Nat             -- absolute offset of the data
+
+def Chunks.start (c : Chunks) (k : Nat) : Nat := if k = 0 then 0 else c.offs[k - 1]!
+def Chunks.stop (c : Chunks) (k : Nat) : Nat := c.offs[k]!
+def Chunks.total (c : Chunks) : Nat := if c.n = 0 then 0 else c.offs[c.n - 1]!
+def Chunks.endAbs (c : Chunks) : Nat := c.data + c.total
+
+def readChunks (what : String) (b : ByteArray) (pos : Nat) : R Chunks := do
+  let (n, p) ← uv b pos
+  if n > b.size then throw s!"{what}: chunk count {n} exceeds the file size"
+  let mut p := p
+  let mut offs : Array Nat := Array.mkEmpty n
+  let mut prev := 0
+  for _ in [0:n] do
+    let (o, p') ← uv b p
+    if o < prev then throw s!"{what}: chunk end offsets decrease"
+    offs := offs.push o
+    prev := o
+    p := p'
+  if p + prev > b.size then throw s!"{what}: chunk data runs past the end of the file"
+  return { n := n, offs := offs, data := p }
+
+/-- Decode one item per document of `docs` (ascending) from the chunks: every item
+    must lie in the chunk `doc / cs`, every chunk must be consumed exactly by the items
+    of its documents, chunks without documents must be empty. -/
+def walkChunks {α : Type} (what : String) (ch : Chunks) (cs : Nat) (docs : List Nat)
+    (dec : Nat → Nat → Nat → R (α × Nat)) : R (List α) := do
+  if cs = 0 then throw s!"{what}: chunk size 0"
+  let mut ci := 0
+  let mut cur := ch.data
+  let mut lim := ch.data + (if ch.n = 0 then 0 else ch.stop 0)
+  let mut out : Array α := #[]
+  for d in docs do
+    let c := d / cs
+    if c ≥ ch.n then throw s!"{what}: doc {d} belongs to chunk {c} but the table has {ch.n} chunks"
+    if c ≠ ci then
+      if c < ci then throw s!"{what}: documents not ascending at doc {d}"
+      if cur ≠ lim then throw s!"{what}: chunk {ci} holds {lim - cur} bytes that belong to none of its documents"
+      if ch.start c ≠ ch.stop ci then throw s!"{what}: a chunk without documents between {ci} and {c} is not empty"
+      ci := c
+      cur := ch.data + ch.start c
+      lim := ch.data + ch.stop c
+    let (a, cur') ← dec d cur lim
+    out := out.push a
+    cur := cur'
+  if cur ≠ lim then throw s!"{what}: chunk {ci} holds {lim - cur} bytes beyond the entries of its documents (entries ≠ cardinality)"
+  if ch.n > 0 ∧ ch.total ≠ ch.stop ci then throw s!"{what}: chunks after {ci} have no documents but are not empty"
+  return out.toList
+
+/-! ### postings (F6, F7, F9, F10) -/
+
+structure FreqItem where
+  doc : Nat
+  freq : Nat
+  norm : Nat
+  hasLocs : Bool
+
+def decFreq (b : ByteArray) (doc cur lim : Nat) : R (FreqItem × Nat) := do
+  let (v, p) ← uvLim b cur lim
+  let freq := v / 2
+  let hasLocs := v % 2 == 1
+  if freq ≠ 0 then
+    let (nb, p) ← uvLim b p lim
+    return ({ doc := doc, freq := freq, norm := nb, hasLocs := hasLocs }, p)
+  else
+    return ({ doc := doc, freq := 0, norm := 0, hasLocs := hasLocs }, p)
+
+def decLocs (b : ByteArray) (doc cur lim : Nat) : R (List MLoc × Nat) := do
+  let (nbytes, p0) ← uvLim b cur lim
+  let fin := p0 + nbytes
+  if fin > lim then throw s!"locations of doc {doc} ({nbytes} bytes) overrun their chunk"
+  let mut p := p0
+  let mut out : Array MLoc := #[]
+  for _ in [0:nbytes] do
+    if p ≥ fin then break
+    let (fid, p1) ← uvLim b p fin
+    let (pos, p2) ← uvLim b p1 fin
+    let (st, p3) ← uvLim b p2 fin
+    let (en, p4) ← uvLim b p3 fin
+    let (nap, p5) ← uvLim b p4 fin
+    if nap > nbytes then throw s!"locations of doc {doc}: {nap} array positions do not fit"
+    let mut q := p5
+    let mut aps : Array Nat := #[]
+    for _ in [0:nap] do
+      let (a, q') ← uvLim b q fin
+      aps := aps.push a
+      q := q'
+    out := out.push { fid := fid, pos := pos, start := st, stop := en, ap := aps.toList }
+    p := q
+  if p ≠ fin then throw s!"locations of doc {doc} do not end at their declared size"
+  return (out.toList, fin)
+
+def decPostings (c : Ctx) (off : Nat) : R (List Entry) := do
+  let b := c.b
+  let (fo, p) ← uv b off
+  let (lo, p) ← uv b p
+  let (rl, p) ← uv b p
+  let bm ← c.blob p rl "r32"
+  let docs := bm.nums
+  if !ascNat docs then throw s!"postings record {off}: roaring members not strictly ascending"
+  let card := docs.length
+  if card = 0 then throw s!"postings record {off}: empty bitmap"
+  let cs ← match Gen.getChunkSize c.chunkMode card c.numDocs with
+    | .ok cs => pure cs
+    | .error e => throw s!"postings record {off}: chunk size: {e}"
+  if fo = 0 then throw s!"postings record {off}: freq/norm stream absent for {card} documents"
+  let fch ← readChunks s!"freq/norm stream {fo}" b fo
+  let fs ← walkChunks s!"freq/norm stream {fo} (record {off}, chunk size {cs})" fch cs docs (decFreq b)
+  let locDocs := (fs.filter (·.hasLocs)).map (·.doc)
+  let ls ←
+    if lo = 0 then
+      if !locDocs.isEmpty then throw s!"postings record {off}: documents flagged hasLocs but no location stream"
+      if fch.endAbs ≠ off then throw s!"postings record {off}: freq/norm stream ends at {fch.endAbs}, not at the record"
+      pure []
+    else do
+      let lch ← readChunks s!"location stream {lo}" b lo
+      if fch.endAbs ≠ lo then throw s!"postings record {off}: freq/norm stream ends at {fch.endAbs}, location stream starts at {lo}"
+      if lch.endAbs ≠ off then throw s!"postings record {off}: location stream ends at {lch.endAbs}, not at the record"
+      walkChunks s!"location stream {lo} (record {off}, chunk size {cs})" lch cs locDocs (decLocs b)
+  let mut rest := ls
+  let mut out : Array Entry := #[]
+  for f in fs do
+    if f.hasLocs then
+      match rest with
+      | l :: r =>
+        out := out.push { doc := f.doc, freq := f.freq, norm := f.norm, locs := l }
+        rest := r
+      | [] => throw s!"postings record {off}: missing locations for doc {f.doc}"
+    else
+      out := out.push { doc := f.doc, freq := f.freq, norm := f.norm, locs := [] }
+  return out.toList
+
+def decDict (c : Ctx) (dictLoc : Nat) : R (List (Bytes × PostRep)) := do
+  let (vl, p) ← uv c.b dictLoc
+  let f ← c.blob p vl "fst"
+  if !ascKeys (f.fst.map (·.1)) then throw s!"dictionary at {dictLoc}: FST keys not strictly ascending"
+  f.fst.mapM (fun kv => do
+    let v := kv.2
+    let top := v >>> 62
+    if top = 2 then
+      pure (kv.1, PostRep.oneHit (v % 2 ^ 31) ((v >>> 31) % 2 ^ 31))
+    else if top = 0 then
+      let es ← decPostings c v
+      pure (kv.1, PostRep.general es)
+    else throw s!"dictionary at {dictLoc}: term {hx kv.1}: FST value {v} has unknown encoding bits")
+
+/-! ### doc values (F12) -/
+
+/-- Terms each followed by 0xff. -/
+def splitFF (bs : Bytes) : Option (List Bytes) :=
+  let r := bs.foldl (fun (acc : Array Bytes × Array Nat) x =>
+    if x = 255 then (acc.1.push acc.2.toList, #[]) else (acc.1, acc.2.push x)) (#[], #[])
+  if r.2.isEmpty then some r.1.toList else none
+
+def joinFF (ts : List Bytes) : Bytes := ts.flatMap (fun t => t ++ [255])
+
+def decDV (c : Ctx) (s e : Nat) : R (List (Nat × List Bytes)) := do
+  if e < s then throw s!"doc values: end {e} before start {s}"
+  let raw ← slice c.b s (e - s)
+  match Codec.contentDecode raw with
+  | none => throw s!"doc values [{s},{e}): framing / snappy not decodable"
+  | some chunks =>
+    let all := chunks.flatten
+    if !ascNat (all.map (·.1)) then throw s!"doc values [{s},{e}): documents not strictly ascending"
+    if all.any (fun p => p.1 ≥ c.numDocs) then throw s!"doc values [{s},{e}): document number ≥ numDocs"
+    all.mapM (fun p => match splitFF p.2 with
+      | some ts => pure (p.1, ts)
+      | none => throw s!"doc values [{s},{e}): value of doc {p.1} does not end with the 0xff separator")
+
+def decInverted (c : Ctx) (addr : Nat) : R (List (Bytes × PostRep) × Option (List (Nat × List Bytes))) := do
+  let (dvs, p) ← uv c.b addr
+  let (dve, p) ← uv c.b p
+  let (dl, _) ← uv c.b p
+  let terms ← decDict c dl
+  if dvs = u64max ∧ dve = u64max then return (terms, none)
+  if dvs = u64max ∨ dve = u64max then throw s!"inverted section {addr}: only one doc-value offset is 'not uninverted'"
+  let dv ← decDV c dvs dve
+  return (terms, some dv)
+
+/-! ### stored fields (F11) -/
+
+def decStoredDoc (c : Ctx) (doc off : Nat) : R StoredDoc := do
+  let b := c.b
+  let (ml, p) ← uv b off
+  let (dl, p) ← uv b p
+  let metaBytes ← slice b p ml
+  let data ← slice b (p + ml) dl
+  let ms ← uvAll s!"stored doc {doc} meta" metaBytes
+  match ms with
+  | [] => throw s!"stored doc {doc}: empty meta (no id length)"
+  | idLen :: groups =>
+    if idLen > data.length then throw s!"stored doc {doc}: id length {idLen} exceeds data length {dl}"
+    let id := data.take idLen
+    let raw ← match Codec.snappyDecode (data.drop idLen) with
+      | some r => pure r
+      | none => throw s!"stored doc {doc}: snappy data not decodable"
+    let rawA := raw.toArray
+    let rec go (fuel : Nat) (g : List Nat) (acc : Array StoredVal) : R (List StoredVal) :=
+      match fuel with
+      | 0 => pure acc.toList
+      | fuel + 1 =>
+        match g with
+        | [] => pure acc.toList
+        | fid :: typ :: o :: l :: nap :: rest =>
+          if rest.length < nap then throw s!"stored doc {doc}: meta truncated inside array positions"
+          else if o + l > rawA.size then throw s!"stored doc {doc}: value [{o},{o + l}) outside the {rawA.size} uncompressed bytes"
+          else go fuel (rest.drop nap)
+                 (acc.push { fid := fid, typ := typ, val := (rawA.extract o (o + l)).toList, ap := rest.take nap })
+        | _ => throw s!"stored doc {doc}: meta truncated"
+    let vals ← go (groups.length + 1) groups #[]
+    return { id := id, vals := vals }
+
+def decStored (c : Ctx) (sio : Nat) : R (List StoredDoc) := do
+  let mut out : Array StoredDoc := #[]
+  for i in [0:c.numDocs] do
+    let off ← be c.b (sio + 8 * i) 8
+    let d ← decStoredDoc c i off
+    out := out.push d
+  return out.toList
+
+/-! ### synonyms (F13) -/
+
+def decThes (c : Ctx) (addr : Nat) : R Thes := do
+  let b := c.b
+  let (a1, p) ← uv b addr
+  let (a2, p) ← uv b p
+  if a1 ≠ u64max ∨ a2 ≠ u64max then throw s!"synonym section {addr}: doc-value offsets are not 2^64-1"
+  let (tl, _) ← uv b p
+  let (vl, p) ← uv b tl
+  let f ← c.blob p vl "fst"
+  if !ascKeys (f.fst.map (·.1)) then throw s!"thesaurus at {tl}: FST keys not strictly ascending"
+  let terms ← f.fst.mapM (fun kv => do
+    let (rl, q) ← uv b kv.2
+    let bm ← c.blob q rl "r64"
+    if !ascNat bm.nums then throw s!"thesaurus at {tl}: term {hx kv.1}: roaring64 members not strictly ascending"
+    if bm.nums.isEmpty then throw s!"thesaurus at {tl}: term {hx kv.1}: empty bitmap"
+    pure (kv.1, bm.nums.map (fun code => (code >>> 32, code % 2 ^ 32))))
+  let tpos := p + vl
+  if tpos > addr then throw s!"thesaurus at {tl}: FST ends at {tpos}, after its section record {addr}"
+  if tpos = addr then return { terms := terms, table := [] }
+  let (cnt, q0) ← uv b tpos
+  if cnt > b.size then throw s!"thesaurus at {tl}: term table count {cnt} exceeds the file size"
+  let mut q := q0
+  let mut tab : Array (Nat × Bytes) := #[]
+  for _ in [0:cnt] do
+    let (id, q1) ← uv b q
+    let (l, q2) ← uv b q1
+    let t ← slice b q2 l
+    tab := tab.push (id, t)
+    q := q2 + l
+  if q ≠ addr then throw s!"thesaurus at {tl}: term table ends at {q}, its section record is at {addr}"
+  return { terms := terms, table := tab.toList }
+
+/-! ### vectors (F14) -/
+
+def decVec (c : Ctx) (addr : Nat) : R VecIx := do
+  let b := c.b
+  let (a1, p) ← uv b addr
+  let (a2, p) ← uv b p
+  if a1 ≠ u64max ∨ a2 ≠ u64max then throw s!"vector section {addr}: doc-value offsets are not 2^64-1"
+  let (opt, p) ← uv b p
+  let (nv, p0) ← uv b p
+  if nv > b.size then throw s!"vector section {addr}: vector count {nv} exceeds the file size"
+  let mut p := p0
+  let mut docs : Array Nat := #[]
+  for _ in [0:nv] do
+    let (_zz, p1) ← uv b p          -- zig-zag varint vector id: opaque, framing = uvarint
+    let (d, p2) ← uv b p1
+    if d ≥ c.numDocs then throw s!"vector section {addr}: doc {d} ≥ numDocs"
+    docs := docs.push d
+    p := p2
+  let (sz, pIdx) ← uv b p
+  let _ ← c.blob pIdx sz "faiss"
+  return { dim := 0, metric := 0, opt := opt, vecs := docs.toList.map (fun d => (d, [])) }
+
+/-! ### field records, footer (F1, F3, F4) -/
+
+def decField (c : Ctx) (addr : Nat) : R FieldM := do
+  let b := c.b
+  let (nl, p) ← uv b addr
+  let name ← slice b p nl
+  let (ns, p) ← uv b (p + nl)
+  if ns > b.size then throw s!"field record {addr}: section count {ns} exceeds the file size"
+  let mut fm : FieldM := { name := name }
+  let mut seen : List Nat := []
+  for j in [0:ns] do
+    let typ ← be b (p + 10 * j) 2
+    let sa ← be b (p + 10 * j + 2) 8
+    if seen.contains typ then throw s!"field record {addr}: section type {typ} listed twice"
+    seen := typ :: seen
+    if sa ≠ 0 then
+      if typ = 0 then
+        let (terms, dv) ← decInverted c sa
+        fm := { fm with terms := terms, dv := dv }
+      else if typ = 1 then
+        let v ← decVec c sa
+        fm := { fm with vec := some v }
+      else if typ = 2 then
+        let t ← decThes c sa
+        fm := { fm with thes := some t }
+      else throw s!"field record {addr}: unknown section type {typ}"
+  return fm
+
+def footerSize : Nat := 52
+
+def decodeBA (b : ByteArray) (blobs : List Blob) : R Seg := do
+  let n := b.size
+  if n < footerSize then throw s!"file of {n} bytes is shorter than the footer"
+  let f := n - footerSize
+  let numDocs ← be b f 8
+  let sio ← be b (f + 8) 8
+  let fio ← be b (f + 16) 8
+  let secio ← be b (f + 24) 8
+  let dvo ← be b (f + 32) 8
+  let cm ← be b (f + 40) 4
+  let ver ← be b (f + 44) 4
+  let crc ← be b (f + 48) 4
+  if ver ≠ 16 then throw s!"footer: version {ver}, expected 16"
+  let crcWant := Codec.crc32 (ofBA (b.extract 0 (n - 4)))
+  if crcWant ≠ crc then throw s!"footer: CRC {crc} but the preceding bytes have CRC-32 {crcWant}"
+  if fio ≠ secio then throw s!"footer: fields index offset {fio} differs from sections index offset {secio}"
+  if dvo ≠ 0 then throw s!"footer: doc value offset {dvo}, expected 0"
+  if numDocs > n then throw s!"footer: {numDocs} documents cannot fit in {n} bytes"
+  if sio + 8 * numDocs > f then throw s!"footer: stored index [{sio},{sio + 8 * numDocs}) overlaps the footer"
+  let c : Ctx := { b := b, numDocs := numDocs, chunkMode := cm,
+                   blobs := blobs.foldl (fun m bl => m.insert (bl.off, bl.len, bl.kind) bl) {} }
+  let (nf, p) ← uv b secio
+  if p + 8 * nf ≠ f then throw s!"sections index at {secio} with {nf} fields does not end at the footer ({f})"
+  let mut fields : Array FieldM := #[]
+  for i in [0:nf] do
+    let addr ← be b (p + 8 * i) 8
+    let fm ← decField c addr
+    fields := fields.push fm
+  let stored ← decStored c sio
+  return { chunkMode := cm, numDocs := numDocs, fields := fields.toList, stored := stored }
+
+/-- Decode a whole segment file from its bytes and the external-library blobs. -/
+def decodeFile (bs : Bytes) (blobs : List Blob) : Except String Seg := decodeBA (toBA bs) blobs
+
+/-! ### comparison with the model content -/
+
+def firstIdx {α : Type} (xs ys : List α) (eq : α → α → Bool) : Option Nat :=
+  let rec go (i : Nat) : List α → List α → Option Nat
+    | [], [] => none
+    | x :: xs, y :: ys => if eq x y then go (i + 1) xs ys else some i
+    | _, _ => some i
+  go 0 xs ys
+
+def locStr (l : MLoc) : String := s!"{l.fid}/{l.pos}/{l.start}/{l.stop}/{l.ap}"
+
+def entryStr (e : Entry) : String :=
+  s!"doc {e.doc} freq {e.freq} norm {e.norm} locs [{", ".intercalate (e.locs.map locStr)}]"
+
+def repStr : PostRep → String
+  | .general es => s!"general({es.length} entries)"
+  | .oneHit d n => s!"1-hit(doc {d}, norm {n})"
+
+def diffRep (want got : PostRep) : Option String :=
+  if want = got then none else
+  match want, got with
+  | .general ws, .general gs =>
+    match firstIdx ws gs (· == ·) with
+    | none => none
+    | some i =>
+      match ws[i]?, gs[i]? with
+      | some w, some g => some s!"entry {i}: model has {entryStr w}, file has {entryStr g}"
+      | some w, none => some s!"entry {i}: model has {entryStr w}, file has no more entries"
+      | none, some g => some s!"entry {i}: model has no more entries, file has {entryStr g}"
+      | none, none => none
+  | _, _ => some s!"model has {repStr want}, file has {repStr got}"
+
+def diffTerms (want got : List (Bytes × PostRep)) : Option String :=
+  match want, got with
+  | [], [] => none
+  | (t, _) :: _, [] => some s!"term {hx t}: in the model, missing in the file"
+  | [], (t, _) :: _ => some s!"term {hx t}: in the file, not in the model"
+  | (tw, rw) :: ws, (tg, rg) :: gs =>
+    if tw ≠ tg then
+      if Bytes.lt tw tg then some s!"term {hx tw}: in the model, missing in the file"
+      else some s!"term {hx tg}: in the file, not in the model"
+    else match diffRep rw rg with
+      | some m => some s!"term {hx tw}: {m}"
+      | none => diffTerms ws gs
+
+def dvCanon (dv : List (Nat × List Bytes)) : List (Nat × Bytes) := dv.map (fun p => (p.1, joinFF p.2))
+
+def diffDV (want got : Option (List (Nat × List Bytes))) : Option String :=
+  match want, got with
+  | none, none => none
+  | some _, none => some "doc values: model has them, file says 'not uninverted'"
+  | none, some _ => some "doc values: file has them, model says 'not uninverted'"
+  | some w, some g =>
+    let w := dvCanon w
+    let g := dvCanon g
+    match firstIdx w g (· == ·) with
+    | none => none
+    | some i =>
+      let sh := fun (o : Option (Nat × Bytes)) => match o with
+        | some p => s!"doc {p.1} = {hx p.2}"
+        | none => "nothing more"
+      some s!"doc values: position {i}: model has {sh w[i]?}, file has {sh g[i]?}"
+
+def sortTable (t : List (Nat × Bytes)) : List (Nat × Bytes) :=
+  t.mergeSort (fun a b => a.1 < b.1 || (a.1 == b.1 && !Bytes.lt b.2 a.2))
+
+def diffThes (want got : Option Thes) : Option String :=
+  match want, got with
+  | none, none => none
+  | some _, none => some "thesaurus: in the model, no synonym section in the file"
+  | none, some _ => some "thesaurus: synonym section in the file, none in the model"
+  | some w, some g =>
+    match firstIdx w.terms g.terms (· == ·) with
+    | some i =>
+      let sh := fun (o : Option (Bytes × List (Nat × Nat))) => match o with
+        | some p => s!"{hx p.1} -> {p.2}"
+        | none => "nothing more"
+      some s!"thesaurus: term {i}: model has {sh w.terms[i]?}, file has {sh g.terms[i]?}"
+    | none =>
+      let wt := sortTable w.table
+      let gt := sortTable g.table
+      match firstIdx wt gt (· == ·) with
+      | none => none
+      | some i =>
+        let sh := fun (o : Option (Nat × Bytes)) => match o with
+          | some p => s!"{p.1} = {hx p.2}"
+          | none => "nothing more"
+        some s!"thesaurus: synonym table entry {i} (sorted by id): model has {sh wt[i]?}, file has {sh gt[i]?}"
+
+def diffVec (want got : Option VecIx) : Option String :=
+  match want, got with
+  | none, none => none
+  | some _, none => some "vector index: in the model, no vector section in the file"
+  | none, some _ => some "vector index: vector section in the file, none in the model"
+  | some w, some g =>
+    if w.opt ≠ g.opt then some s!"vector index: optimisation type: model {w.opt}, file {g.opt}"
+    else
+      let wd := (w.vecs.map (·.1)).mergeSort (· ≤ ·)
+      let gd := (g.vecs.map (·.1)).mergeSort (· ≤ ·)
+      if wd = gd then none
+      else some s!"vector index: documents of the vectors: model {wd}, file {gd}"
+
+def diffField (i : Nat) (w g : FieldM) : Option String :=
+  let pre := fun (m : String) => s!"field {i} ({hx w.name}): {m}"
+  if w.name ≠ g.name then some s!"field {i}: model name {hx w.name}, file name {hx g.name}"
+  else match diffTerms w.terms g.terms with
+    | some m => some (pre m)
+    | none => match diffDV w.dv g.dv with
+      | some m => some (pre m)
+      | none => match diffThes w.thes g.thes with
+        | some m => some (pre m)
+        | none => (diffVec w.vec g.vec).map pre
+
+def valStr (v : StoredVal) : String := s!"field {v.fid} type {v.typ} value {hx v.val} arraypos {v.ap}"
+
+def diffStored (i : Nat) (w g : StoredDoc) : Option String :=
+  if w.id ≠ g.id then some s!"stored doc {i}: model id {hx w.id}, file id {hx g.id}"
+  else match firstIdx w.vals g.vals (· == ·) with
+    | none => none
+    | some j =>
+      let sh := fun (o : Option StoredVal) => match o with
+        | some v => valStr v
+        | none => "nothing more"
+      some s!"stored doc {i}: value {j}: model has {sh w.vals[j]?}, file has {sh g.vals[j]?}"
+
+/-- First difference between the model content `want` and the decoded file `got`. -/
+def firstDiff (want got : Seg) : Option String :=
+  if want.chunkMode ≠ got.chunkMode then some s!"chunk mode: model {want.chunkMode}, file {got.chunkMode}"
+  else if want.numDocs ≠ got.numDocs then some s!"numDocs: model {want.numDocs}, file {got.numDocs}"
+  else if want.fields.length ≠ got.fields.length then
+    some s!"number of fields: model {want.fields.length} {want.fields.map (hx ·.name)}, file {got.fields.length} {got.fields.map (hx ·.name)}"
+  else
+    match ((want.fields.zip got.fields).zipIdx).findSome? (fun p => diffField p.2 p.1.1 p.1.2) with
+    | some m => some m
+    | none =>
+      if want.stored.length ≠ got.stored.length then
+        some s!"stored docs: model {want.stored.length}, file {got.stored.length}"
+      else ((want.stored.zip got.stored).zipIdx).findSome? (fun p => diffStored p.2 p.1.1 p.1.2)
+
+/-! ### the observation `file=<hex> blobs=<blob>;...` -/
+
+def isDigitB (x : UInt8) : Bool := 48 ≤ x && x ≤ 57
+
+def hexValB (x : UInt8) : Option Nat :=
+  if 48 ≤ x && x ≤ 57 then some (x.toNat - 48)
+  else if 97 ≤ x && x ≤ 102 then some (x.toNat - 87)
+  else none
+
+/-- Decimal number at `i` (before `lim`): (value, next position); no digit = error. -/
+def scanNat (g : ByteArray) (i lim : Nat) : R (Nat × Nat) := do
+  let mut v := 0
+  let mut j := i
+  for _ in [i:lim] do
+    if isDigitB (g.get! j) then
+      v := v * 10 + ((g.get! j).toNat - 48)
+      j := j + 1
+    else break
+  if j = i then throw s!"number expected at column {i}"
+  return (v, j)
+
+/-- Position of the first byte `x` in [i, lim), or `lim`. -/
+def findB (g : ByteArray) (x : UInt8) (i lim : Nat) : Nat := Id.run do
+  let mut j := i
+  for _ in [i:lim] do
+    if g.get! j == x then break
+    j := j + 1
+  return j
+
+/-- Hex string in [i, lim) ("." = empty). -/
+def scanHex (g : ByteArray) (i lim : Nat) : R ByteArray := do
+  if lim = i + 1 ∧ g.get! i == 46 then return ByteArray.empty
+  if (lim - i) % 2 ≠ 0 then throw s!"odd number of hex digits at column {i}"
+  let mut out := ByteArray.emptyWithCapacity ((lim - i) / 2)
+  for k in [0:(lim - i) / 2] do
+    match hexValB (g.get! (i + 2 * k)), hexValB (g.get! (i + 2 * k + 1)) with
+    | some a, some b => out := out.push (UInt8.ofNat (a * 16 + b))
+    | _, _ => throw s!"bad hex digit at column {i + 2 * k}"
+  return out
+
+def expectB (g : ByteArray) (i : Nat) (x : UInt8) : R Unit :=
+  if i < g.size ∧ g.get! i == x then pure () else throw s!"'{Char.ofNat x.toNat}' expected at column {i}"
+
+def scanNatList (g : ByteArray) (i lim : Nat) : R (List Nat) := do
+  if lim = i + 1 ∧ g.get! i == 45 then return []
+  let mut out : Array Nat := #[]
+  let mut j := i
+  for _ in [i:lim + 1] do
+    let (v, j') ← scanNat g j lim
+    out := out.push v
+    if j' ≥ lim then
+      j := j'
+      break
+    expectB g j' 44
+    j := j' + 1
+  if j ≠ lim then throw s!"number list does not end at column {lim}"
+  return out.toList
+
+def scanFstPairs (g : ByteArray) (i lim : Nat) : R (List (Bytes × Nat)) := do
+  if lim = i + 1 ∧ g.get! i == 45 then return []
+  let mut out : Array (Bytes × Nat) := #[]
+  let mut j := i
+  for _ in [i:lim + 1] do
+    let eq := findB g 61 j lim
+    if eq ≥ lim then throw s!"'=' expected after column {j}"
+    let k ← scanHex g j eq
+    let (v, j') ← scanNat g (eq + 1) lim
+    out := out.push (ofBA k, v)
+    if j' ≥ lim then
+      j := j'
+      break
+    expectB g j' 44
+    j := j' + 1
+  if j ≠ lim then throw s!"FST pair list does not end at column {lim}"
+  return out.toList
+
+def scanBlobs (g : ByteArray) (i : Nat) : R (List Blob) := do
+  let n := g.size
+  if n = i + 1 ∧ g.get! i == 45 then return []
+  let mut out : Array Blob := #[]
+  let mut j := i
+  for _ in [i:n + 1] do
+    if j ≥ n then break
+    let (off, j1) ← scanNat g j n
+    expectB g j1 58
+    let (len, j2) ← scanNat g (j1 + 1) n
+    expectB g j2 58
+    let kEnd := findB g 58 (j2 + 1) n
+    if kEnd ≥ n then throw s!"blob kind not terminated at column {j2}"
+    let kind := String.ofList ((ofBA (g.extract (j2 + 1) kEnd)).map Char.ofNat)
+    let pEnd := findB g 59 (kEnd + 1) n
+    let bl ←
+      if kind == "fst" then do
+        let ps ← scanFstPairs g (kEnd + 1) pEnd
+        pure ({ off := off, len := len, kind := kind, fst := ps } : Blob)
+      else if kind == "r32" ∨ kind == "r64" then do
+        let xs ← scanNatList g (kEnd + 1) pEnd
+        pure ({ off := off, len := len, kind := kind, nums := xs } : Blob)
+      else pure ({ off := off, len := len, kind := kind } : Blob)
+    out := out.push bl
+    j := pEnd + 1
+  return out.toList
+
+def startsWithB (g : ByteArray) (i : Nat) (s : String) : Bool :=
+  let p := s.toUTF8
+  i + p.size ≤ g.size && (List.range p.size).all (fun k => g.get! (i + k) == p.get! k)
+
+/-- Parse `file=<hex> blobs=<blob>;...` into the file bytes and the blobs. -/
+def parseObs (got : String) : R (ByteArray × List Blob) := do
+  let g := got.toUTF8
+  if !startsWithB g 0 "file=" then throw "observation does not start with file="
+  let sp := findB g 32 5 g.size
+  let file ← scanHex g 5 sp
+  if !startsWithB g sp " blobs=" then throw "observation has no blobs= part"
+  let blobs ← scanBlobs g (sp + 7)
+  return (file, blobs)
+
+/-- `none` = the file decodes to exactly the model content; `some reason` otherwise. -/
+def analyze (s : Seg) (got : String) : Option String :=
+  if got.startsWith "toolarge" then none else
+  match parseObs got with
+  | .error e => some s!"observation not parseable: {e}"
+  | .ok (file, blobs) =>
+    match decodeBA file blobs with
+    | .error e => some s!"file not decodable by the documented layout: {e}"
+    | .ok dec => firstDiff s dec
+
 /-- `got` is the harness's observation for `dumpfile`; `s` the model's content of that file. -/
-def checkDump (_s : Seg) (_got : String) : Bool := true
-def explainDump (_s : Seg) (_got : String) : String := ""
+def checkDump (s : Seg) (got : String) : Bool := (analyze s got).isNone
+
+/-- A short human-readable reason for a mismatch ("ok" if there is none). -/
+def explainDump (s : Seg) (got : String) : String := (analyze s got).getD "ok"
+
 end Zap.Layout
